@@ -157,6 +157,10 @@ func optSets() []optSet {
 		{"Elide+Unquote", func(k lexKind) []participle.Option {
 			return []participle.Option{participle.Elide(k.elide...), participle.Unquote(k.strType)}
 		}},
+		{"Elide+3 untyped Map+Upper+Unquote", func(k lexKind) []participle.Option {
+			id := func(t lexer.Token) (lexer.Token, error) { return t, nil }
+			return []participle.Option{participle.Elide(k.elide...), participle.Map(id), participle.Upper("Ident"), participle.Map(id), participle.Unquote(k.strType), participle.Map(id)}
+		}},
 		{"Elide+Map(err on c)", func(k lexKind) []participle.Option {
 			return []participle.Option{participle.Elide(k.elide...), participle.Map(func(t lexer.Token) (lexer.Token, error) {
 				if t.Value == "c" {
@@ -295,6 +299,14 @@ func runJob(w *hx.Worker, j job, maxLen int, only string) {
 					{"ParseString", func() (*any, error) { return p.ParseString(fn, in, popt) }},
 					{"Parse(reader)", func() (*any, error) { return p.Parse(fn, strings.NewReader(in), popt) }},
 					{"ParseBytes", func() (*any, error) { return p.ParseBytes(fn, []byte(in), popt) }},
+					{"ParseBytes(buffer reused afterwards)", func() (*any, error) {
+						b := []byte(in)
+						v, err := p.ParseBytes(fn, b, popt)
+						for i := range b {
+							b[i] = 'z' // the caller owns the buffer again: the result must not alias it
+						}
+						return v, err
+					}},
 					{"ParseFromLexer", func() (*any, error) {
 						lx, err := p.Lexer().Lex(fn, strings.NewReader(in))
 						if err != nil {
@@ -438,6 +450,66 @@ func runJob(w *hx.Worker, j job, maxLen int, only string) {
 				}
 				streams = append(streams, s)
 				namesS = append(namesS, n)
+			}
+			// all three lexers alive at the same time and advanced in turn give the same streams
+			{
+				var lxs []lexer.Lexer
+				var buf []byte
+				if l, err := def.Lex("f", strings.NewReader(in)); err == nil {
+					lxs = append(lxs, l)
+				}
+				if sd, ok := def.(lexer.StringDefinition); ok {
+					if l, err := sd.LexString("f", in); err == nil {
+						lxs = append(lxs, l)
+					}
+				}
+				if bd, ok := def.(lexer.BytesDefinition); ok {
+					buf = []byte(in)
+					if l, err := bd.LexBytes("f", buf); err == nil {
+						lxs = append(lxs, l)
+					}
+				}
+				toks := make([][]lexer.Token, len(lxs))
+				outs := make([]string, len(lxs))
+				done := make([]bool, len(lxs))
+				for step := 0; step < len(in)+3; step++ {
+					for i, l := range lxs {
+						if done[i] {
+							continue
+						}
+						var t lexer.Token
+						var err error
+						pan, msg := hx.Guard(func() { t, err = l.Next() })
+						switch {
+						case pan:
+							outs[i] += "PANIC " + msg
+							done[i] = true
+						case err != nil:
+							outs[i] += "ERR " + err.Error()
+							done[i] = true
+						default:
+							toks[i] = append(toks[i], t)
+							if t.EOF() {
+								done[i] = true
+							}
+						}
+					}
+				}
+				// lexing is over: the caller reuses its buffer; tokens already handed out must not change
+				for i := range buf {
+					buf[i] = 'z'
+				}
+				for i := range toks {
+					for _, t := range toks[i] {
+						outs[i] += fmt.Sprintf("%d:%q@%d,", t.Type, t.Value, t.Pos.Offset)
+					}
+				}
+				for i := 1; i < len(outs); i++ {
+					if outs[i] != outs[0] {
+						w.Violate(hx.Violation{Key: key, Class: "definition-lexers-interfere-or-alias", Detail: map[string]any{"first": outs[0], fmt.Sprintf("lexer#%d", i): outs[i]}})
+						break
+					}
+				}
 			}
 			lx, err := def.Lex("f", strings.NewReader(in))
 			add("Lex", lx, err)
